@@ -1330,7 +1330,8 @@ func (st *Runtime) evalChainNodeExpression(node *ChainNode) (reflect.Value, erro
 			return reflect.Value{}, err
 		}
 		if !field.IsValid() {
-			if resolved.Kind() == reflect.Map && i == len(node.Field)-1 {
+			if m, _ := indirect(resolved); m.Kind() == reflect.Map && i == len(node.Field)-1 {
+				// (an absent key, also of a map behind pointers or in an interface)
 				// return reflect.Zero(resolved.Type().Elem()), nil
 				return reflect.Value{}, nil
 			}
